@@ -994,3 +994,104 @@ def ao_pubsub(kind="lifo", pending=1, subscribe_first=True):
   sc.info = {"kind": kind, "pending": pending, "events": [e.rid for e in all_events], "news": news.rid, "posters": [0], "consumer": 1,
              "subscribe_first": subscribe_first, "handler_post_event": None}
   return sc
+
+
+# ---- several threads publish to the fabric at once (C08: equal priorities leave in publish order, however many publishers) ---------------
+class RecordingQueue:
+  """stand-in class of the two fabric queues in the `publishers` scenario: put() is one visible operation and records, in ghost state, the
+  sequence number the real FabricEvent.__init__ gave the item"""
+
+  def put(self, item):
+    pass
+
+
+def bind_class_state(sc, cls, skip=()):
+  """class attributes that are state shared by every thread: an itertools.count becomes a counter model, an int / None a shared cell, a lock
+  a lock model.  Found by looking at the real class, so a class that keeps its counter differently is modelled as it is written."""
+  import itertools
+  import threading
+  out = {}
+  for k, v in vars(cls).items():
+    if k.startswith("__") or k in skip or callable(v) or isinstance(v, (staticmethod, classmethod, property)):
+      continue
+    name = "%s.%s" % (cls.__name__, k)
+    if isinstance(v, itertools.count):
+      m = sc.add(M.MCounter(name, 0))
+    elif isinstance(v, bool) or v is None or isinstance(v, int):
+      if isinstance(v, int) and not 0 <= v < 8:
+        continue              # a constant (priorities, sizes): left to the translator as a static value
+      m = sc.add(M.MAttr(name, NONE if v is None else int(v)))
+    elif isinstance(v, (type(threading.RLock()), type(threading.Lock()))):
+      m = sc.add(M.MRLock(name))
+    else:
+      continue
+    sc.class_attrs[(cls, k)] = m
+    out[k] = m
+  return out
+
+
+def publishers(counts=(2, 2)):
+  """thread t calls the real ActiveFabricSource.publish `counts[t]` times (same priority); FabricEvent.__init__ is translated as written,
+  with the class's numbering state shared between the threads.  Ghost state: for every publish call the sequence numbers its two fabric
+  events got, whether it has returned, and which calls of the other threads had returned when it began."""
+  import miros.activeobject as ao
+  sc = Scenario("publishers")
+  signals_ns(sc)
+  EV = RecordClass("event", ["signal", "signal_name"])
+  sc.record_pyclass["event"] = ao.HsmEvent
+  A = sc.strings.code("A")
+  state = bind_class_state(sc, ao.FabricEvent)
+  sc.constructible.add(ao.FabricEvent)
+  calls = [(t, k) for t, n in enumerate(counts) for k in range(n)]
+  for (t, k) in calls:
+    sc.ghost["g.done.%d.%d" % (t, k)] = 0
+    for kind in ("fifo", "lifo"):
+      sc.ghost["g.seq.%s.%d.%d" % (kind, t, k)] = NONE
+    for (t2, k2) in calls:
+      if t2 != t:
+        sc.ghost["g.hb.%d.%d.%d.%d" % (t2, k2, t, k)] = 0
+  qm = {kind: sc.add(M.MQueue("%s_queue" % kind, 2 * len(calls))) for kind in ("fifo", "lifo")}
+  qobj = {kind: PyObj(RecordingQueue, {"model": qm[kind], "kind": kind}, "%s_queue" % kind) for kind in ("fifo", "lifo")}
+  nput = {}
+
+  def put(comp, self_val, args, kwargs):
+    kind = self_val.obj.attrs["kind"]
+    item = args[0]
+    if not (isinstance(item, SP) and item.obj.cls is ao.FabricEvent and "sequence" in item.obj.attrs):
+      raise TranslationError("fabric queue put of %r (expected a FabricEvent made on this path, with a sequence attribute)" % (item,))
+    k = nput.get((kind, comp.tid), 0)
+    nput[(kind, comp.tid)] = k + 1
+    x = comp.intx(item.obj.attrs["sequence"])
+    name = "g.seq.%s.%d.%d" % (kind, comp.tid, k)
+    comp.op(qm[kind], "put", [], want=0)
+    comp.ghost(lambda B, st, tid, _x=x, _n=name: {_n: ir.evint(_x, st, B)}, "record " + name, uses=[x])
+    return SK(NONE, None)
+  sc.method_intrinsics[("RecordingQueue", "put")] = put
+  fabric = PyObj(ao.ActiveFabricSource, {"fifo_fabric_queue": qobj["fifo"], "lifo_fabric_queue": qobj["lifo"]}, "fabric")
+
+  def begin(t, k):
+    def intr(comp, args, kwargs):
+      def fn(B, st, tid):
+        return {"g.hb.%d.%d.%d.%d" % (t2, k2, t, k): st["g.done.%d.%d" % (t2, k2)] for (t2, k2) in calls if t2 != t}
+      comp.ghost(fn, "begin %d.%d" % (t, k))
+      return SK(NONE, None)
+    return SI(intr)
+
+  def end(t, k):
+    def intr(comp, args, kwargs):
+      comp.ghost(lambda B, st, tid: {"g.done.%d.%d" % (t, k): B.const(1)}, "end %d.%d" % (t, k))
+      return SK(NONE, None)
+    return SI(intr)
+  for t, n in enumerate(counts):
+    body = "def publisher(fabric, e):\n"
+    clo = {}
+    for k in range(n):
+      body += "  begin%d()\n  fabric.publish(e, priority=5)\n  end%d()\n" % (k, k)
+      clo["begin%d" % k] = begin(t, k)
+      clo["end%d" % k] = end(t, k)
+    ev = EV.new(signal=SK(11 + t, 11 + t), signal_name=SK(A, "A"))
+    c = Compiler(sc, t, "publisher%d" % t)
+    c.call_function(SF(node=driver(body, "publisher"), closure=clo, qualname="scenario.publisher", globs={}), [SP(fabric), ev], {})
+    sc.programs.append(c.finish())
+  sc.info = {"counts": list(counts), "calls": [list(c) for c in calls], "class_state": {k: m.cls for k, m in state.items()}}
+  return sc
